@@ -5,7 +5,7 @@ from vmon import core, snap
 from vmon.core import REC, SKIP
 from models import tiers as M
 from workloads import gen
-from checks.common import num, call, ents_of, scale_of, desc, check_result_tier, make_tier, rand_tier
+from checks.common import num, call, ents_of, scale_of, desc, check_result_tier, make_tier, rand_tier, receiver_changed
 
 PROP = "C09"
 NSHARDS = {"quick": 8, "thorough": 16}
@@ -137,6 +137,10 @@ def _post(ctx):
     ents = ents_of(s)
     sig = (s["t"], mode, tuple(classes), len(ents), gen.order_type((-off,), ents, s["t"]))
     case = {"call": "tier.editTimestamps", "tier": s, "offset": off, "mode": mode}
+    _why = receiver_changed(ctx, s)
+    if _why:
+        REC.violation(PROP, mon, "editTimestamps", case, _why, ("receiver-changed", "editTimestamps"), {"op": "editTimestamps", "receiver_changed": True})
+        return
     if ok:
         REC.held(mon, sig if ents else None, classes, case)
     else:
